@@ -146,8 +146,13 @@ def is_exact(x):
 
 
 def finite(x):
+    """usable as a float: neither overflowed nor underflowed"""
     import math
-    return is_exact(x) or (isinstance(x, float) and math.isfinite(x) and x != 0.0)
+    try:
+        y = float(x)
+    except (OverflowError, ValueError):
+        return False
+    return math.isfinite(y) and (y != 0.0 or x == 0) and abs(y) > 1e-290
 
 
 def close(a, b, exact=True):
@@ -1211,11 +1216,16 @@ def run(ck):
             ck.violation(key, desc, rp)
     if bad:
         first = descs[bad[0]]
+        import re
         where = ck.coq_show(hdr, f"c14_first_bad QKv default_reg dst dtbl ({cases[bad[0]]})")
-        ck.broken.append(f"correspondence GroupsRun.c14_ok: {len(bad)} disagreeing runs, first: {first['label']} step {where[-60:]!r}")
-        if not fails:
-            ck.violation("correspondence", "model and implementation disagree; no property oracle failed",
-                         {"label": first["label"], "registry": first["registry"], "ops": first["ops"], "first_bad_step": where[-200:], "n": len(bad)},
+        mm = re.search(r"Some (\d+)%N", where)
+        idx = int(mm.group(1)) if mm else -1
+        step = first["ops"][idx] if 0 <= idx < len(first["ops"]) else "(state construction)"
+        ck.broken.append(f"correspondence GroupsRun.c14_ok: {len(bad)} disagreeing runs, first: {first['label']} step {idx}: {step}")
+        if not ck.violations:
+            ck.violation("correspondence", "model and implementation disagree; no unlisted property oracle failed",
+                         {"label": first["label"], "registry": first["registry"], "ops": first["ops"][:idx + 1] if idx >= 0 else first["ops"],
+                          "first_bad_step": idx, "step": step, "n": len(bad)},
                          no_input=True)
 
 
